@@ -24,9 +24,13 @@ PolarCases == {[pair |-> p, dx |-> dx, dy |-> dy, zoom |-> z, pad |-> o.pad, ali
 PoleCases == {[pair |-> p, dx |-> dx, dy |-> dy, zoom |-> z, pad |-> o.pad, align |-> o.align] :
                 p \in {"3031>4326pole", "3413>4326pole"}, dx \in {-1, 0, 1, 2}, dy \in {0, 1, 2}, z \in {"same", "coarser"},
                 o \in {[pad |-> <<>>, align |-> <<>>], [pad |-> <<1>>, align |-> <<>>]}}
+\* the other way round: a lon/lat source (dy = 0: up to the pole, 1: up to 89 degrees) warped onto a polar raster that contains the pole
+\* (dx = 0: centred exactly on it, 1 / 2: 35 / 155 km off centre).  The image of the destination's INTERIOR is then not bounded by the image of its outline.
+CapCases == {[pair |-> p, dx |-> dx, dy |-> dy, zoom |-> "same", pad |-> o.pad, align |-> o.align] :
+               p \in {"4326>3413cap", "4326>3031cap"}, dx \in {0, 1, 2}, dy \in {0, 1}, o \in {[pad |-> <<>>, align |-> <<>>], [pad |-> <<1>>, align |-> <<>>]}}
 VARIABLE c
-Init == c \in {[k |-> p] : p \in Pairs \cup {"big", "polar", "pole"}}
-Next == "k" \in DOMAIN c /\ c' \in (IF c.k = "big" THEN BigCases ELSE IF c.k = "polar" THEN PolarCases ELSE IF c.k = "pole" THEN PoleCases ELSE {x \in Cases : x.pair = c.k}) /\ Emit(c')
+Init == c \in {[k |-> p] : p \in Pairs \cup {"big", "polar", "pole", "cap"}}
+Next == "k" \in DOMAIN c /\ c' \in (IF c.k = "big" THEN BigCases ELSE IF c.k = "polar" THEN PolarCases ELSE IF c.k = "pole" THEN PoleCases ELSE IF c.k = "cap" THEN CapCases ELSE {x \in Cases : x.pair = c.k}) /\ Emit(c')
 Spec == Init /\ [][Next]_c
 
 =============================================================================
